@@ -4,13 +4,18 @@ import vlib, gen_json, gen_doc, jsonchecks
 from gen_json import hx
 from props import C09
 
-def inputs_json(rnd, n):
+def inputs_json(rnd, n, comments=False):
     out = []
-    valid = jsonchecks.valid_docs(rnd, max(50, n // 6), max_depth=3)
+    valid = jsonchecks.valid_docs(rnd, max(50, n // 6), max_depth=3, comments=comments)
     for t, text in valid:
         out.append(text)
         for _ in range(3):
             out.append(gen_json.mutate(rnd, text))
+        if comments and b"/" in text:
+            # cut right after every comment delimiter character: the scanner's own case splits
+            cuts = [i + 1 for i in range(len(text)) if text[i:i + 1] in (b"*", b"/")]
+            for i in rnd.sample(cuts, min(4, len(cuts))):
+                out.append(text[:i])
     out += gen_json.boundary_json(rnd, max(60, n // 12))
     while len(out) < n:
         k = rnd.random()
@@ -62,7 +67,7 @@ def check(run):
     for cfg, defs in matrix:
         impl = vlib.need_harness("doc_h", cfg, defs)
         small = bool(defs)
-        jin = inputs_json(rnd, nj if not small else nj // 3)
+        jin = inputs_json(rnd, nj if not small else nj // 3, comments=(cfg[1] == "1"))
         min_ = inputs_mp(rnd, nm if not small else nm // 3)
         if small:   # stay below the capacity limits of tiny geometries (NoMemory is C19's subject)
             jin = [x for x in jin if len(x) < 120]
